@@ -40,6 +40,8 @@ pub const POS_FLIP: [[usize; 3]; 2] = [[4_000, 2_000, 2_000], [150_000, 60_000, 
 /// zobrist: played plies (G1 only) and transposition probes.
 pub const ZOB_PLIES: [usize; 2] = [12_000, 600_000];
 pub const ZOB_PROBES: [usize; 2] = [800, 40_000];
+/// zobrist, second pass: positions per generator whose special moves are all emitted.
+pub const ZOB_SPECIAL: [[usize; 3]; 2] = [[1_500, 2_500, 2_000], [60_000, 80_000, 60_000]];
 /// moves group: random legal moves per position besides the played one (quick only).
 pub const MOVES_QUICK_EXTRA: usize = 6;
 pub const MOVES_ILLEGAL_PER_POS: usize = 2;
@@ -65,11 +67,13 @@ pub const GAME_RANDOM_MAX_ACTIONS: [usize; 2] = [90, 260];
 pub const GAME_EXHAUSTIVE_LEN: [usize; 2] = [3, 4];
 pub const GAME_HIST_EVERY: usize = 5;
 /// pgn group: base random games (each replayed once per ending variant), maximum length.
-pub const PGN_BASE_GAMES: [usize; 2] = [14, 150];
+pub const PGN_BASE_GAMES: [usize; 2] = [30, 200];
 pub const PGN_MAX_PLIES: usize = 300;
 
 pub const SEEDS_FILE: &str = "/verif/harness/seeds.txt";
-pub const EXAMPLES_DIR: &str = "/repo/examples/pgn_data";
+/// root of the library tree under test (`VERIF_REPO`, default `/repo`; the crate itself is linked at build time)
+pub fn repo_root() -> String { std::env::var("VERIF_REPO").ok().filter(|s| !s.is_empty()).unwrap_or_else(|| "/repo".to_string()) }
+pub fn examples_dir() -> String { format!("{}/examples/pgn_data", repo_root()) }
 
 // ---------------------------------------------------------------------------------------------
 
